@@ -132,7 +132,7 @@ def case_digitize(draw):
             else:
                 row.append(draw(finite))
         rows.append(row)
-    return {"grids": gs, "data": rows}
+    return {"grids": gs, "data": rows, "dtype": draw(st.sampled_from(["float64", "float64", "float32", "int64"]))}
 
 
 def check_digitize(ctx: Ctx, case):
@@ -142,10 +142,17 @@ def check_digitize(ctx: Ctx, case):
     grids_ = [np.array(g, dtype=float) for g in case["grids"]]
     d = len(grids_)
     data = np.array(case["data"], dtype=float).reshape(-1, d)
+    dt = case.get("dtype", "float64")
+    if dt != "float64":   # the caller's array need not be float64: values are first made representable in that type
+        with np.errstate(all="ignore"):
+            data = np.clip(data, -1e15, 1e15) if dt == "int64" else data
+            data = data.astype(dt)
+            if not np.all(np.isfinite(data.astype(float))):
+                data = np.nan_to_num(data.astype(float), posinf=3e38, neginf=-3e38).astype(dt)
     d0 = data.copy()
     with guard(ctx, "C17/exception", sub, case):
         out = digitize_data(data, grids_)
-    ctx.count(sub, case, data.shape[0] >= 1 and d >= 2, [f"d={d}", f"n={'0' if data.shape[0] == 0 else '>0'}"])
+    ctx.count(sub, case, data.shape[0] >= 1 and d >= 2, [f"d={d}", f"n={'0' if data.shape[0] == 0 else '>0'}", dt])
     if out.shape != data.shape:
         ctx.fail("C17/shape", f"digitize_data shape {out.shape} != {data.shape}", sub, case)
         return
@@ -153,7 +160,7 @@ def check_digitize(ctx: Ctx, case):
         ctx.fail("C17/input-modified", "digitize_data modified its input", sub, case)
         return
     for j in range(d):
-        _oracle_rows(sub, ctx, case, grids_[j], data[:, j], out[:, j])
+        _oracle_rows(sub, ctx, case, grids_[j], data[:, j].astype(float), np.asarray(out[:, j], dtype=float))
         col = get_closest(grids_[j], data[:, j])
         if not np.array_equal(col, out[:, j]):
             ctx.fail("C17/column-mismatch", f"column {j} differs from get_closest on that column's grid", sub, case)
